@@ -25,6 +25,7 @@ type Val struct {
 }
 
 var valRe = regexp.MustCompile(`^([a-z])([0-9]{1,6})$`)
+var numRe = regexp.MustCompile(`^1([0-9]{6})$`) // the JSON number 1000000 + n
 
 func Project(s string) Val {
 	s = strings.TrimSpace(s)
@@ -33,6 +34,11 @@ func Project(s string) Val {
 	}
 	if s == "<no value>" {
 		return Val{"novalue", 0}
+	}
+	if m := numRe.FindStringSubmatch(s); m != nil {
+		n := 0
+		fmt.Sscanf(m[1], "%d", &n)
+		return Val{"n", n}
 	}
 	if m := valRe.FindStringSubmatch(s); m != nil {
 		n := 0
@@ -169,6 +175,10 @@ func (t *Target) handle(w http.ResponseWriter, r *http.Request) {
 		w.Header().Set("Content-Type", "application/json")
 		w.WriteHeader(status)
 		fmt.Fprintf(w, `{"tok":"j%d","list":["j%d"]}`, k, k)
+	case "jsonnum":
+		w.Header().Set("Content-Type", "application/json")
+		w.WriteHeader(status)
+		fmt.Fprintf(w, `{"num":%d,"nums":[%d]}`, 1000000+k, 1000000+k)
 	case "hdr":
 		w.Header().Set("X-Tok", fmt.Sprintf("h%d", k))
 		w.WriteHeader(status)
